@@ -415,6 +415,7 @@ fn lock_of(files: &BTreeMap<String, Vec<u8>>) -> Option<Vec<u8>>
 fn c06_check(case: &C06Case) -> CaseOutcome
 {
     let mut o = CaseOutcome::default();
+    let _cfg_form = crate::sandbox::ConfigFormGuard::new((crate::engine::hash_of(case) % 3) as u8);
     let (tree, cfg, rendered, raw_files): (Tree, ConfigSpec, Vec<(String, Rendered)>, Vec<(String, Vec<u8>)>) = match case
     {
         C06Case::Model(mt) =>
